@@ -4,6 +4,11 @@ import PynetVerif.Driver.Fsm
 import PynetVerif.Driver.Framing
 import PynetVerif.Driver.Scu
 import PynetVerif.Driver.Dul
+import PynetVerif.Driver.Dimse
+import PynetVerif.Driver.Timer
+import PynetVerif.Driver.Cancel
+import PynetVerif.Driver.Nego
+import PynetVerif.Driver.Ctx
 open PynetVerif
 
 /-- Each model contributes `String → List SExp → Option SExp` (none = not my op). -/
@@ -12,7 +17,12 @@ def handlers : List (String → List SExp → Option SExp) :=
    Driver.fsmOps,
    Driver.framingOps,
    Driver.scuOps,
-   Driver.dulOps]
+   Driver.dulOps,
+   Driver.dimseOps,
+   Driver.timerOps,
+   Driver.cancelOps,
+   Driver.negoOps,
+   Driver.ctxOps]
 
 def handle (e : SExp) : SExp :=
   match e with
